@@ -30,6 +30,7 @@ type State struct {
 	cells    map[ssa.Value]Val
 	heaps    map[string]string
 	locks    map[string]string // lock key -> held condition
+	rlocks   map[string]string // lock key -> "held in read mode" condition
 	rets     map[string]Val    // "callee#ordinal" -> what that call returned on this path
 	called   map[string]string // callee short name -> "has been called on this path" condition
 	lockInfo map[string]*lockRec
@@ -50,6 +51,10 @@ func (s *State) Clone() *State {
 	}
 	for k, v := range s.locks {
 		n.locks[k] = v
+	}
+	n.rlocks = map[string]string{}
+	for k, v := range s.rlocks {
+		n.rlocks[k] = v
 	}
 	n.rets = map[string]Val{}
 	for k, v := range s.rets {
@@ -552,6 +557,38 @@ func (fx *FuncExec) Merge(ins []incoming, what string) *State {
 			t = ite(ins[i].cond, get(ins[i].st), t)
 		}
 		n.heaps[k] = fx.em.DefineRaw(k, fx.heapInfos[k].sortText, t)
+	}
+	// rlocks: read-mode flags merge like held conditions
+	{
+		rk := map[string]bool{}
+		for _, in := range ins {
+			for k := range in.st.rlocks {
+				rk[k] = true
+			}
+		}
+		n.rlocks = map[string]string{}
+		for k := range rk {
+			get := func(s *State) string {
+				if h, ok := s.rlocks[k]; ok {
+					return h
+				}
+				return "false"
+			}
+			t := get(ins[len(ins)-1].st)
+			same := true
+			for _, in := range ins {
+				if get(in.st) != t {
+					same = false
+				}
+			}
+			if !same {
+				for i := len(ins) - 2; i >= 0; i-- {
+					t = ite(ins[i].cond, get(ins[i].st), t)
+				}
+				t = fx.em.Define("rmode", SBool, t)
+			}
+			n.rlocks[k] = t
+		}
 	}
 	// rets: kept only where all incoming paths agree (a call site lies on one path)
 	n.rets = map[string]Val{}
